@@ -511,6 +511,11 @@ impl PropRun {
                 for c in &r.candidates {
                     if !c.confirmed {
                         *names.entry(format!("{}/{}", c.harness, c.obligation)).or_insert(0) += 1;
+                        if std::env::var("SYMX_SHOW_UNCONFIRMED").is_ok() {
+                            let mut kv: Vec<_> = c.inputs.iter().collect();
+                            kv.sort_by(|a, b| a.0.cmp(b.0));
+                            println!("    unconfirmed candidate {}/{} inputs {:?} native_failures {:?}", c.harness, c.obligation, kv, c.native_failures);
+                        }
                     }
                 }
             }
@@ -645,6 +650,11 @@ impl PropRun {
         ]);
         let _ = std::fs::create_dir_all(format!("{}/evidence", verif_dir));
         let _ = std::fs::write(format!("{}/evidence/{}.json", verif_dir, self.id), ev.to_string());
+        if solver_errors > 0 {
+            // an `(error` line makes the query inconclusive (never a pass); a non-zero count means the encoder emitted
+            // something a solver rejected and must be looked at
+            println!("SOLVER-ERRORS property={} n={} (those queries were treated as undecided)", self.id, solver_errors);
+        }
         println!(
             "RESULT property={} tier={} paths={} obligations={} discharged={} violations={} known={} undecided={} wall={:.1}s",
             self.id,
